@@ -28,6 +28,10 @@ PT = {
     "attr_selector": 'a[href^="http://x;{}"]:not(.b):nth-child(2n+1)::after { top: calc(100% - 2.5e1px) }',
     "supports_plain": "@supports (display: grid) and (not (display: inline-grid)) { .g { display: grid } }",
     "trailing_semicolons": ".t { margin: 0;; padding: 0; }",
+    "layer_statement": "@layer reset, base, components;",
+    "layer_block": "@layer base { .lb { margin: 0 } @layer inner, outer; }",
+    "container_block": "@container card (min-width: 400px) { .cb { padding: 0 } }",
+    "media_statementless": "@media print { }",
 }
 PT_ORDER = list(PT)
 # extra rule kinds only relevant here (comment inside the colour declaration)
